@@ -143,7 +143,7 @@ Section Sim.
   Lemma r_is_sensor a b sid cid : deq a b -> rres rgx (is_sensor a sid cid) (is_sensor b sid cid).
   Proof.
     intro H. unfold is_sensor. rewrite (rd_get_node a b _ H), (rd_cf a b H), (rd_tab a b H).
-    match goal with |- context [negb ?r && _] => destruct (negb r && cf_ge20 (g_cf b)) end;
+    match goal with |- context [negb ?r && _ && _] => destruct (negb r && node_id_ok sid && cf_ge20 (g_cf b)) end;
       [|simpl; apply rgx_intro; exact H].
     destruct (sassoc (s2p "I_PRESENTATION") (vt_internal_members (tab b))) as [ip|]; [|reflexivity].
     pose proof (r_route a b (mkMsg sid system_child_id (vt_internal (tab b)) 0 ip []) H) as [R1 R2].
